@@ -270,6 +270,10 @@ def run_bounded(chk):
         qa = queries3(base)
         ca = central_tensor(base)
         probes = P.mean(axis=0) + np.array([[0, 0, 0], [0.2, 0.1, -0.1], [3, 3, 3], [0.41, 0.43, 0.37], [-0.3, 0.35, 0.25]]) * size
+        if klass == "Polyhedron":
+            # points on the boundary are outside the property's scope (the vertex mean of the C-shaped solid lies on a face)
+            from .bounded_c05 import voxel_membership
+            probes = np.array([q for q in probes if voxel_membership(q, B2.voxel_solids()[name]) != 0])
         ia = np.asarray(base.is_inside(probes))
         for s in scales:
             for pname, R, t in places:
